@@ -93,4 +93,8 @@ def run(ctx):
                 "edges: it compares and hashes all key parts, and every entry is cleared (under its lock) in pre_gc / before a "
                 "reordering, so that no entry survives the collection of one of its nodes and is served for a recycled id.")
     edm.run(ctx, F)
+    ctx.explain("E-WRAP.delegate: the multi-threaded function types forward the non-recursive operations (constructors, eval, "
+                "sat_count, pick_cube*) to the sequential type: the item of the same name with the parameters in order.")
+    nd = eeval.check_mt_delegations(ctx, F)
+    ctx.floor("E-WRAP.delegate", "forwarding methods of the MT function types", nd, 15)
     ctx.not_decided = "the default value of variables missing from eval's arguments, behaviour under memory exhaustion and parallel scheduling"
